@@ -315,20 +315,165 @@ def check_function(rep, ex: Explorer, qual: str, role: str):
     return {"queries": n_queries, "rows": spec_rows, "paths": len(paths)}
 
 
+def evaluated(rep, ex: Explorer, qual: str, role: str):
+    """PART.partition: the function evaluated on concrete bases of 0..3 conditionals in both modes, its layer loop run
+    iteration by iteration, with the answer of every satisfiability test left open.  Every test must be one of the two
+    tests the definition knows - "is c tolerated by the remaining conditionals F" ({material(d) : d in F} with
+    verification(c)) or, in extended mode, "is F jointly satisfiable" - and for every combination of answers the result
+    must be the partition those answers determine (layers in discovery order; False when nothing is tolerated - in
+    extended mode only when F is not even jointly satisfiable, otherwise F becomes the last layer; an empty last layer is
+    appended in extended mode when every conditional found a layer).  Independent of how the loop is written."""
+    import itertools
+
+    from ..absvals import HDict, HObj, HList
+    from ..harness import BB_CLASS
+
+    site = fn_label(ex.prog, qual)
+    n_paths = 0
+    for n in (0, 1, 2, 3):
+        names = [f"c{k}" for k in range(n)]
+        keys = {10 + 3 * k: names[k] for k in range(n)}
+        for weakly in (False, True):
+            def setup(I, keys=keys, weakly=weakly):
+                conds = I.alloc(HDict(entries={k: ElemV(("obj", nm), "cond") for k, nm in keys.items()}))
+                bb = I.alloc(HObj(BB_CLASS, {"conditionals": conds, "signature": Sym(("signature", "D")), "name": Sym(("bbname", "D"), "str")}))
+                return [bb, Const("z3"), Const(weakly)], {}
+
+            paths = ex.run(qual, setup, key=f"part-eval-{n}-{weakly}", unroll_while=n + 3)
+            mat = {nm: canon_item(("f", material(("obj", nm)))) for nm in names}
+            ver = {nm: canon_item(("f", verification(("obj", nm)))) for nm in names}
+            for p in paths:
+                mode = "extended" if weakly else "strict"
+                if p.outcome[0] == "unroll-limit":
+                    n_paths += 1
+                    rep.violation("PART.partition", site, f"termination ({n} conditionals, {mode})", "the layer loop ends: every round either places a conditional or returns", extracted=f"still looping after {n + 3} rounds", required="at most one round per conditional, plus one", function=site)
+                    continue
+                if p.outcome[0] != "return":
+                    continue  # (an exception: judged by the symbolic rules / the callers)
+                dec = dict(p.decisions)
+                oracle = {}
+                feasible = True
+                for ev, Q in iter_events(p.events):
+                    if ev.kind != "query":
+                        continue
+                    items = [canon_item(i) for i in flat(ev.frames)]
+                    S = frozenset(nm for nm in names if mat[nm] in items)
+                    T = [nm for nm in names if ver[nm] in items]
+                    rest = [i for i in items if i not in mat.values() and i not in ver.values()]
+                    if rest or len(T) > 1 or (T and T[0] not in S):
+                        rep.violation("PART.context", f"{site}:{getattr(ev.node, 'lineno', '?')}", "tolerance test scope", "a test is asked under the material implications of the remaining conditionals and, for a tolerance test, the verification of one of them",
+                                      extracted=show_items(flat(ev.frames))[:200], required="{material(d) : d remaining} (+ verification(c), c remaining)", function=site)
+                        feasible = False
+                        break
+                    a = dec.get(("sat", ev.qid))
+                    if a is None:
+                        continue
+                    k_ = (S, T[0] if T else None)
+                    if k_ in oracle and oracle[k_] != a:
+                        feasible = False
+                        break
+                    oracle[k_] = a
+                if not feasible:
+                    continue
+                n_paths += 1
+                # what the answers determine; a test that was never asked may have either answer
+                def reference(orc):
+                    remaining, layers = list(names), []
+                    while True:
+                        if not remaining:
+                            return layers + ([frozenset()] if weakly else [])
+                        F_ = frozenset(remaining)
+                        R_ = [c for c in remaining if orc[(F_, c)]]
+                        if not R_:
+                            if weakly and orc[(F_, None)]:
+                                return layers + [F_]
+                            return False
+                        layers.append(frozenset(R_))
+                        remaining = [c for c in remaining if c not in R_]
+
+                def needed(orc):
+                    try:
+                        reference(orc)
+                        return None
+                    except KeyError as e:
+                        return e.args[0]
+
+                completions = [dict(oracle)]
+                wants = set()
+                for _ in range(12):
+                    nxt = []
+                    done = True
+                    for orc in completions:
+                        mk = needed(orc)
+                        if mk is None:
+                            nxt.append(orc)
+                        else:
+                            done = False
+                            nxt.append({**orc, mk: True})
+                            nxt.append({**orc, mk: False})
+                    completions = nxt
+                    if done:
+                        break
+                for orc in completions:
+                    r_ = reference(orc)
+                    wants.add(r_ if r_ is False else tuple(r_))
+                rv = p.outcome[1]
+                first = rv.items[0] if isinstance(rv, TupleV) and rv.items else rv
+                if isinstance(first, Const) and first.value is False:
+                    got = False
+                else:
+                    o = p.state.heap.get(first.oid) if isinstance(first, Ref) else None
+                    if not isinstance(o, HList) or not all(sg[0] == "one" for sg in o.segs):
+                        raise AnalysisError(f"{site}: the returned partition is not a concrete list of layers: {view(p.state, first)!r}"[:240])
+                    got = []
+                    for sg in o.segs:
+                        L = p.state.heap.get(sg[1].oid) if isinstance(sg[1], Ref) else None
+                        if not isinstance(L, HList) or not all(x[0] == "one" for x in L.segs):
+                            raise AnalysisError(f"{site}: a layer of the returned partition is not a concrete list: {view(p.state, sg[1])!r}"[:240])
+                        mem = []
+                        for x in L.segs:
+                            v = x[1]
+                            if isinstance(v, ElemV) and isinstance(v.var, tuple) and v.var[:1] == ("obj",):
+                                mem.append(v.var[1])
+                            elif isinstance(v, Const) and v.value in keys:
+                                mem.append(keys[v.value])
+                            else:
+                                mem.append(repr(v))
+                        if len(set(mem)) != len(mem):
+                            mem.append("(repeated member)")
+                        got.append(frozenset(mem))
+                    got = tuple(got)
+                asked = ", ".join(f"{'tol(' + t + ')' if t else 'sat'}|{{{','.join(sorted(S_))}}}={'yes' if a else 'no'}" for (S_, t), a in sorted(oracle.items(), key=lambda kv: (-len(kv[0][0]), str(kv[0][1]))))
+                show = lambda r: "False" if r is False else str([sorted(L) for L in r])  # noqa: E731
+                rep.check(len(wants) == 1 and got in wants, "PART.partition", site, f"{n} conditionals, {mode}: {asked or 'no test'}",
+                          "the result is the partition the tolerance tests determine" + ("" if len(wants) == 1 else " (a test the definition needs was never asked)"),
+                          extracted=show(got), required=" or ".join(sorted(show(w) for w in wants)) + ("" if len(wants) == 1 else " depending on a test that was not asked"), function=site)
+    rep.floor(f"PART.partition evaluations of {qual.rsplit('.', 1)[1]}", n_paths, 30)
+
+
 def check_all(rep, ex: Explorer, only=None):
     stats = {}
     for qual, role in FUNCS.items():
         if only and qual not in only:
             continue
-        stats[qual] = check_function(rep, ex, qual, role)
-    rep.floor("PART tolerance-test sites", sum(s["queries"] for s in stats.values()), len(stats))
-    rep.floor("PART decision rows", sum(s["rows"] for s in stats.values()), 6 * len(stats))
+        evaluated(rep, ex, qual, role)
+        try:
+            stats[qual] = check_function(rep, ex, qual, role)
+        except AnalysisError as e:
+            # the generic (any number of conditionals) reading does not apply to this way of writing the loop: the
+            # evaluation above has decided the function for bases of up to three conditionals
+            rep.ok("PART.partition", fn_label(ex.prog, qual), "generic reading", "the loop is not in a form the generic rules read; decided by evaluation on bases of 0..3 conditionals only", extracted=str(e)[:200])
+            stats[qual] = None
+    done = [s for s in stats.values() if s]
+    if done:
+        rep.floor("PART tolerance-test sites", sum(s["queries"] for s in done), len(done))
+        rep.floor("PART decision rows", sum(s["rows"] for s in done), 6 * len(done))
     return stats
 
 
 def check_siblings(rep, ex: Explorer):
-    """PART.siblings: both variants discharge the same table (object- vs key-based)."""
+    """PART.siblings: both variants (object- and key-based) are held to the same reference by PART.partition; how many
+    abstract paths each has is recorded, not demanded (it depends on how each is written)."""
     a = analyse(ex, "inference.consistency_sat.consistency")
     b = analyse(ex, "inference.consistency_sat.consistency_indices")
-    rep.check(len(a) == len(b), "PART.siblings", "inference/consistency_sat.py:consistency|consistency_indices", "path count",
-              f"{len(a)} vs {len(b)} abstract paths", extracted=f"{len(a)}/{len(b)}", required="equal")
+    rep.ok("PART.siblings", "inference/consistency_sat.py:consistency|consistency_indices", "same reference", "both variants are evaluated against one reference (PART.partition)", extracted=f"{len(a)}/{len(b)} abstract paths")
